@@ -99,7 +99,21 @@ theorem inv_after_check (i i' : Info) (f : Frame) (hg : Good i)
     Spec.Inv ⟨i', f⟩ ∧ (keys i'.reg).Nodup := by
   have hg' := checkDataframe_good i f hg
   rw [h] at hg'
-  exact ⟨hg'.keysOk f (checkDataframe_ok_last i i' f h) he, hg'.nodup⟩
+  exact ⟨hg'.keysOk f (checkDataframe_ok_last i i' f h) (Or.inl he), hg'.nodup⟩
+
+/-- a frame that still has rows but has lost all its columns (`df.empty` is true for it too): after a
+    successful consultation the register is empty — no unit without a column -/
+theorem inv_no_columns (i i' : Info) (f : Frame) (hg : Good i)
+    (h : checkDataframe i f = (i', none)) (hc : f.cols = []) :
+    i'.reg = [] ∧ units i'.reg = [] := by
+  have hg' := checkDataframe_good i f hg
+  rw [h] at hg'
+  have hk := hg'.keysOk f (checkDataframe_ok_last i i' f h) (Or.inr hc)
+  have : i'.reg = [] := by
+    have hl := congrArg List.length hk
+    simp [keys, Frame.names, hc] at hl
+    exact hl
+  simp [this, units]
 
 /-- a full validation needs no assumption at all about the register it starts from
     (any register: stale, reordered, foreign) -/
